@@ -62,6 +62,12 @@ func c09world(t *testing.T, nepochs int) *c09World {
 		w.multi.AddEpoch(uint64(i+1), l.epoch)
 	}
 	w.h = newMultiEpochHandler(w.multi, nil)
+	w.ops = c09ops(w)
+	return w
+}
+
+// c09ops: one closure per client / reload operation, against w.multi
+func c09ops(w *c09World) map[string]func() {
 	l1, l2 := w.eps[0], w.eps[1]
 	sig := l1.built.Blocks[0].Txs[0].Sig
 	slot := l1.built.Blocks[1].Spec.Slot
@@ -70,7 +76,7 @@ func c09world(t *testing.T, nepochs int) *c09World {
 	end := slot + 8
 	tr := true
 	multi, h := w.multi, w.h
-	w.ops = map[string]func(){
+	return map[string]func(){
 		"rpc.getSlot":                func() { vCall(h, `{"jsonrpc":"2.0","id":1,"method":"getSlot"}`) },
 		"rpc.getFirstAvailableBlock": func() { vCall(h, `{"jsonrpc":"2.0","id":1,"method":"getFirstAvailableBlock"}`) },
 		"rpc.getVersion":             func() { vCall(h, `{"jsonrpc":"2.0","id":1,"method":"getVersion"}`) },
@@ -103,13 +109,23 @@ func c09world(t *testing.T, nepochs int) *c09World {
 		"reload.RemoveEpoch":            func() { multi.RemoveEpoch(78) },
 		"reload.RemoveByConfigFilepath": func() { multi.RemoveEpochByConfigFilepath("/nonexistent") },
 	}
-	return w
+}
+
+// c09emptyWorld: the operations of w against a MultiEpoch without epochs
+func c09emptyWorld(w *c09World) *c09World {
+	we := &c09World{eps: w.eps}
+	we.multi = NewMultiEpoch(&Options{EpochSearchConcurrency: 2})
+	we.h = newMultiEpochHandler(we.multi, nil)
+	we.ops = c09ops(we)
+	// (the reload operations that add an epoch leave the set empty again)
+	return we
 }
 
 type c09Prog struct {
 	Name    string   `json:"name"`
 	Prog    []string `json:"prog"`
 	Callers []string `json:"callers"`
+	Leaked  bool     `json:"leaked"` // after the operation (and the goroutines it spawned) had returned, a writer could not take the epoch-set lock
 }
 
 func TestVerifC09Record(t *testing.T) {
@@ -139,16 +155,29 @@ func TestVerifC09Record(t *testing.T) {
 		names = append(names, n)
 	}
 	sort.Strings(names)
+	// the same operations against a server on which no epoch has been loaded yet (asynchronous start-up loading)
+	we := c09emptyWorld(w)
+	we.multi.mu.rec = w.multi.mu.rec
+	for _, n := range names {
+		names = append(names, n+"@empty")
+		if len(names) >= 2*len(w.ops) {
+			break
+		}
+	}
 	for _, n := range names {
 		mu.Lock()
 		progs = map[int64]*thr{}
 		mu.Unlock()
 		done := make(chan struct{})
 		var first int64
+		opf, world := w.ops[n], w
+		if strings.HasSuffix(n, "@empty") {
+			opf, world = we.ops[strings.TrimSuffix(n, "@empty")], we
+		}
 		go func() {
 			defer close(done)
 			atomic.StoreInt64(&first, verifGoid())
-			vt.Guard(w.ops[n])
+			vt.Guard(opf)
 		}()
 		select {
 		case <-done:
@@ -156,6 +185,19 @@ func TestVerifC09Record(t *testing.T) {
 			t.Fatalf("operation %s did not return while recording (single-threaded)", n)
 		}
 		time.Sleep(2 * time.Millisecond) // let spawned goroutines finish their lock calls
+		// can a writer (an epoch being added) still get the lock?  (probed on the real mutex, not recorded)
+		leaked := false
+		for try := 0; ; try++ {
+			if world.multi.mu.inner.TryLock() {
+				world.multi.mu.inner.Unlock()
+				break
+			}
+			if try > 200 {
+				leaked = true
+				break
+			}
+			time.Sleep(time.Millisecond)
+		}
 		mu.Lock()
 		var ts []*thr
 		var ids []int64
@@ -182,10 +224,10 @@ func TestVerifC09Record(t *testing.T) {
 				cs = append(cs, c[strings.LastIndex(c, ".")+1:])
 			}
 			sort.Strings(cs)
-			out.Emit(c09Prog{Name: name, Prog: p.prog, Callers: cs})
+			out.Emit(c09Prog{Name: name, Prog: p.prog, Callers: cs, Leaked: leaked && isFirst})
 		}
 		if len(ts) == 0 {
-			out.Emit(c09Prog{Name: n, Prog: []string{}, Callers: []string{}})
+			out.Emit(c09Prog{Name: n, Prog: []string{}, Callers: []string{}, Leaked: leaked})
 		}
 		_ = ids
 		mu.Unlock()
@@ -568,4 +610,202 @@ func TestVerifC09Stress(t *testing.T) {
 	}
 	out.Emit(o)
 	mu.Unlock()
+}
+
+// ---- atomicity of the epoch-set mutators (linearizability of pairs) --------------------------------------------------
+
+type c09LinOutcome struct {
+	Reply1  string   `json:"reply1"`
+	Reply2  string   `json:"reply2"`
+	Numbers []uint64 `json:"numbers"`
+	Served  []int    `json:"served"` // object id served under each epoch number (same order as Numbers)
+	Closed  []int    `json:"closed"`
+}
+
+type c09LinObs struct {
+	Kind    string        `json:"kind"`
+	Op1     string        `json:"op1"`
+	Op2     string        `json:"op2"`
+	GateAt  int           `json:"gateAt"` // op1 was parked before its gateAt-th lock acquisition (0 = it has a single critical section)
+	Outcome string        `json:"outcome"`
+	Detail  string        `json:"detail"`
+	Inter   c09LinOutcome `json:"inter"`
+	Seq12   c09LinOutcome `json:"seq12"`
+	Seq21   c09LinOutcome `json:"seq21"`
+}
+
+// TestVerifC09Atomic: every ordered pair of mutators over a small set of light Epoch objects (real Config with a config
+// path and hash, close tracked); op1 is parked before each of its lock acquisitions after the first, op2 runs, op1 resumes.
+func TestVerifC09Atomic(t *testing.T) {
+	out := vt.Out(t)
+	defer out.Close()
+	type world struct {
+		multi  *MultiEpoch
+		objs   []*Epoch
+		closed map[int]bool
+	}
+	mk := func() *world {
+		w := &world{multi: NewMultiEpoch(&Options{}), closed: map[int]bool{}}
+		add := func(epoch uint64, file string) {
+			id := len(w.objs) + 1
+			e := epoch
+			ep := &Epoch{epoch: epoch, config: &Config{Epoch: &e, originalFilepath: file, hashOfConfigFile: fmt.Sprintf("h%d", id)}}
+			ep.onClose = append(ep.onClose, func() error { w.closed[id] = true; return nil })
+			w.objs = append(w.objs, ep)
+		}
+		add(5, "/cfg/a.yml") // 1: served at start
+		add(6, "/cfg/b.yml") // 2: served at start
+		add(5, "/cfg/c.yml") // 3: epoch 5 again, from another config file
+		add(7, "/cfg/d.yml") // 4
+		add(6, "/cfg/a.yml") // 5: epoch 6 from the path of object 1
+		w.multi.AddEpoch(5, w.objs[0])
+		w.multi.AddEpoch(6, w.objs[1])
+		return w
+	}
+	type op struct {
+		name string
+		run  func(w *world) string
+	}
+	rep := func(err error) string {
+		if err != nil {
+			return "err"
+		}
+		return "ok"
+	}
+	ops := []op{
+		{"RemoveByFile(a)", func(w *world) string {
+			n, err := w.multi.RemoveEpochByConfigFilepath("/cfg/a.yml")
+			if err != nil {
+				return "err"
+			}
+			return fmt.Sprint(n)
+		}},
+		{"RemoveByFile(b)", func(w *world) string {
+			n, err := w.multi.RemoveEpochByConfigFilepath("/cfg/b.yml")
+			if err != nil {
+				return "err"
+			}
+			return fmt.Sprint(n)
+		}},
+		{"ReplaceOrAdd(5<-obj3)", func(w *world) string { return rep(w.multi.ReplaceOrAddEpoch(5, w.objs[2])) }},
+		{"ReplaceOrAdd(6<-obj5)", func(w *world) string { return rep(w.multi.ReplaceOrAddEpoch(6, w.objs[4])) }},
+		{"ReplaceOrAdd(7<-obj4)", func(w *world) string { return rep(w.multi.ReplaceOrAddEpoch(7, w.objs[3])) }},
+		{"Add(7<-obj4)", func(w *world) string { return rep(w.multi.AddEpoch(7, w.objs[3])) }},
+		{"Add(5<-obj3)", func(w *world) string { return rep(w.multi.AddEpoch(5, w.objs[2])) }},
+		{"Remove(5)", func(w *world) string { return rep(w.multi.RemoveEpoch(5)) }},
+		{"Remove(6)", func(w *world) string { return rep(w.multi.RemoveEpoch(6)) }},
+		{"Replace(5<-obj3)", func(w *world) string { return rep(w.multi.ReplaceEpoch(5, w.objs[2])) }},
+	}
+	snap := func(w *world, r1, r2 string) c09LinOutcome {
+		o := c09LinOutcome{Reply1: r1, Reply2: r2, Numbers: w.multi.GetEpochNumbers(), Served: []int{}, Closed: []int{}}
+		if o.Numbers == nil {
+			o.Numbers = []uint64{}
+		}
+		for _, n := range o.Numbers {
+			ep, _ := w.multi.GetEpoch(n)
+			id := 0
+			for i, x := range w.objs {
+				if x == ep {
+					id = i + 1
+				}
+			}
+			o.Served = append(o.Served, id)
+		}
+		for id := range w.closed {
+			o.Closed = append(o.Closed, id)
+		}
+		sort.Ints(o.Closed)
+		return o
+	}
+	for _, a := range ops {
+		for _, b := range ops {
+			if a.name == b.name {
+				continue
+			}
+			var s12, s21 c09LinOutcome
+			{
+				w := mk()
+				r1 := a.run(w)
+				r2 := b.run(w)
+				s12 = snap(w, r1, r2)
+			}
+			{
+				w := mk()
+				r2 := b.run(w)
+				r1 := a.run(w)
+				s21 = snap(w, r1, r2)
+			}
+			// how many lock acquisitions does op1 make?
+			nacq := 0
+			{
+				w := mk()
+				var mu sync.Mutex
+				w.multi.mu.rec = func(g int64, op string, caller string) {
+					if op == "RLock" || op == "Lock" {
+						mu.Lock()
+						nacq++
+						mu.Unlock()
+					}
+				}
+				a.run(w)
+			}
+			gates := []int{0}
+			for k := 2; k <= nacq; k++ {
+				gates = append(gates, k)
+			}
+			for _, k := range gates {
+				w := mk()
+				o := c09LinObs{Kind: "linpair", Op1: a.name, Op2: b.name, GateAt: k, Seq12: s12, Seq21: s21, Outcome: "completed"}
+				var r1, r2 string
+				if k == 0 {
+					r1 = a.run(w)
+					r2 = b.run(w)
+				} else {
+					parked := make(chan struct{})
+					release := make(chan struct{})
+					var g1 int64
+					cnt := 0
+					w.multi.mu.gate = func(g int64, op string) {
+						if g != atomic.LoadInt64(&g1) || (op != "RLock" && op != "Lock") {
+							return
+						}
+						cnt++
+						if cnt == k {
+							close(parked)
+							<-release
+						}
+					}
+					done := make(chan struct{})
+					go func() {
+						defer close(done)
+						atomic.StoreInt64(&g1, verifGoid())
+						r1 = a.run(w)
+					}()
+					select {
+					case <-parked:
+						r2 = b.run(w)
+						close(release)
+					case <-done:
+						r2 = b.run(w) // (op1 finished without reaching the k-th acquisition)
+					case <-time.After(5 * time.Second):
+						o.Outcome, o.Detail = "hang", "op1 neither parked nor returned"
+					}
+					if o.Outcome == "completed" {
+						select {
+						case <-done:
+						case <-time.After(5 * time.Second):
+							o.Outcome, o.Detail = "hang", "op1 did not return after being released"
+						}
+					}
+					w.multi.mu.gate = nil
+				}
+				if o.Outcome == "completed" {
+					o.Inter = snap(w, r1, r2)
+				} else {
+					o.Inter = c09LinOutcome{Numbers: []uint64{}, Served: []int{}, Closed: []int{}}
+				}
+				out.Emit(o)
+			}
+		}
+	}
 }
